@@ -138,10 +138,14 @@ def run_hist(c):
     log = []
     funcs, acts, resps = {}, {}, {}
 
+    raisers = set(c.get('raise', []))
+
     def user_fn(fid):
         if fid not in funcs:
             def f(msg, time, addr, recv_port, _fid=fid):
                 log.append((st['cur'][0], _fid, list(msg), time, (addr.addr, addr.port), recv_port))
+                if _fid in raisers:                      # a user function that fails while handling the message
+                    raise RuntimeError(f'callback {_fid} failed')
             funcs[fid] = f
         return funcs[fid]
 
